@@ -140,6 +140,43 @@ fn check_program(ctx: &mut Ctx, id: &str, prog: &str, c: &Cfg, n_lits_expected: 
     let text = match out.result {
         Ok(t) => t,
         Err(e) => {
+            // The batch is a sequence of statements that each parse on their own. When the library
+            // rejects it, every statement is judged alone: one that the library rejects although
+            // the parser accepts it (the text must have been altered before parsing) is a finding.
+            let lines: Vec<&str> = prog.split_inclusive('\n').collect();
+            if n_lits_expected > 1 && lines.len() > 1 && id.len() < 200 {
+                // statements end at a line end that is not inside a literal: re-split with the lexer
+                if let Ok(lx) = lex::lex(prog) {
+                    let mut starts: Vec<usize> = Vec::new();
+                    for t in lx.toks() {
+                        let s = lx.text(t);
+                        if (s == "local" || (s.starts_with('f') && s[1..].chars().all(|c| c.is_ascii_digit()) && s.len() > 1)) && (t.start == 0 || prog.as_bytes()[t.start - 1] == b'\n') {
+                            starts.push(t.start);
+                        }
+                    }
+                    starts.push(prog.len());
+                    let mut judged = 0;
+                    for w in starts.windows(2) {
+                        let stmt = &prog[w[0]..w[1]];
+                        if !fmt::parses(stmt, c) {
+                            continue;
+                        }
+                        judged += 1;
+                        match ctx.eval(&format!("{id}#single"), stmt, c, None, false).result {
+                            Ok(_) => check_program(ctx, &format!("{id}#single{}", w[0]), stmt, c, 1),
+                            Err(e1) => {
+                                let lit = lex::lex(stmt).ok().and_then(|l| l.toks().find(|t| t.kind == TokKind::Str).map(|t| l.text(t).to_string())).unwrap_or_default();
+                                let form = if lit.starts_with('"') { "dq" } else if lit.starts_with('\'') { "sq" } else { "long" };
+                                let sg = format!("C04:valid-literal-rejected:{form}");
+                                ctx.finding("literal-value", &sg, &format!("the parser accepts {stmt:?}, format_code rejects it: {e1:?}").chars().take(300).collect::<String>(), case_json(id, stmt, c, None));
+                            }
+                        }
+                    }
+                    if judged > 0 {
+                        return;
+                    }
+                }
+            }
             ctx.inconclusive(&format!("batch did not format: {e:?}").chars().take(120).collect::<String>());
             return;
         }
